@@ -14,8 +14,11 @@ silence a finding.  Deliberate exclusions (DESIGN.md sections 4, 5 and the build
     replayed separately);
   * counts above 300 in front of commands whose work is proportional to the count (inserts, puts,
     repeats), counts of a million and more in front of motions that loop count times, shell commands
-    in the body of :g (one process per matching line): that is work proportional to what was asked
-    for, not a hang.
+    in the body of :g (one process per matching line), s///g in the body of :g (an empty-matching
+    pattern doubles the addressed line once per matching line), macros that add a thousand lines:
+    that is work proportional to what was asked for, not a hang;
+  * file arguments that are absolute, contain .. or expand % / # with a suffix (path_safe: the
+    harness must not write outside the case directory).
 Every choice comes from the Rng that is passed in (SplitMix64, vlib.Rng).
 """
 
@@ -219,7 +222,7 @@ def reg(r):
 
 
 def path_arg(r):
-    return r.choice(['f.txt', 'g.txt', 'out.txt', 'new.txt', 'sub', '%', '#', '', 'f.txt', 'g.txt', '=f.txt', '%.bak', '#x', 'a b', 'a\\ b', '%%', '%' * 40,
+    return r.choice(['f.txt', 'g.txt', 'out.txt', 'new.txt', 'sub', '%', '#', '', 'f.txt', 'g.txt', '=f.txt', 'f.txt.bak', 'gx', 'a b', 'a\\ b',
                      'n' * 200, 'm' * 300, '中.txt', 'nosuch', '.', 'f.txt g.txt', '+3 f.txt', '+ g.txt', '+$ f.txt', '+s_a_b_ f.txt', '+' + 'p' * 100 + ' f.txt'])
 
 
@@ -254,6 +257,8 @@ def simple_cmd(r, nlines, depth):
         if d != '/':
             p, rp = p.replace(d, ''), rp.replace(d, '')
         tail = r.choice(['', d, d + 'g', d + 'g', d + ' g', d + 'gg', d + 'x'])
+        if depth > 0:           # :g running s///g with an empty-matching pattern on one line doubles it per matching line (2^n bytes: slow, not hung)
+            tail = r.choice(['', d])
         return a + 's' + d + p + d + rp + tail
     if t < 29:
         return a + r.choice(['s', 's/', 's//', 's///', 's/a', 's/a/', 's\\', 's|', 's"', 's ', 'su', 'substitute/a/b/', '&', '~', '&&', 's/a/b/|p', 's/a/b/"c'])
@@ -288,7 +293,7 @@ def simple_cmd(r, nlines, depth):
     if t < 43:
         return r.choice(['n', 'prev', 'next', 'n!', 'n x'])
     if t < 45:
-        return a + r.choice(['w', 'w!', 'w', 'w!']) + ' ' + r.choice(['out.txt', 'out2.txt', '', 'f.txt', '%', '#', 'new.txt', '中.txt', 'sub', 'o' * 300, '%.bak'])
+        return a + r.choice(['w', 'w!', 'w', 'w!']) + ' ' + r.choice(['out.txt', 'out2.txt', '', 'f.txt', '%', '#', 'new.txt', '中.txt', 'sub', 'o' * 300, 'f.bak'])
     if t < 46:
         return a + 'w !' + shell(r, True)
     if t < 48:
@@ -367,6 +372,68 @@ def ex_block(r, nlines):
 
 EX_TAIL = b'.\n' * 40 + b'q!\n'
 
+FILECMDS = ('w', 'wq', 'x', 'xa', 'xit', 'write', 'r', 'read', 'e', 'ew', 'edit', 'so', 'source', 'n', 'next', 'b', 'buffer', 'rx', 'make', 'rk', 'cd')
+LOCSET = ".$0123456789'/?+-,;%"
+
+
+def unsafe_path(arg):
+    a = arg.strip()
+    if a.startswith('!'):
+        return '>' in a or '..' in a or ' /' in a.replace(' </dev/null', '')
+    if a.startswith('+'):                       # +cmd in front of the file name
+        a = a.split(' ', 1)[1] if ' ' in a else ''
+    a = a.strip()
+    return a.startswith('/') or a.startswith('~') or '..' in a or (('%' in a or '#' in a) and len(a) > 1) or a.startswith('\\/')
+
+
+def path_safe(line):
+    """Cheap static check of one ex command line (str): no file command (also inside :g bodies and after |) may name an
+    absolute path, a path with .., or a % / # expansion with a suffix (an unnamed buffer expands % to "/")."""
+    i, n = 0, len(line)
+    while i < n:
+        while i < n and line[i] in ': \t':
+            i += 1
+        while i < n and line[i] in LOCSET:          # addresses, as ex_loc reads them
+            c = line[i]
+            if c == "'" and i + 1 < n:
+                i += 1
+            elif c in '/?':
+                i += 1
+                while i < n and line[i] != c:
+                    i += 2 if line[i] == '\\' and i + 1 < n else 1
+            i += 1
+        while i < n and line[i] in ' \t':
+            i += 1
+        j = i
+        while j < n and line[j].isascii() and line[j].isalpha() and j - i < 16:
+            j += 1
+            if line[i:j] == 'k':
+                break
+        cmd = line[i:j]
+        if j < n and line[j] in '!=@':
+            if not cmd and line[j] == '!':
+                return not unsafe_path('!' + line[j + 1:])
+            j += 1
+        rest = line[j:]
+        if cmd in ('g', 'v', 'global', 'vglobal'):
+            r2 = rest.lstrip(' \t')
+            if not r2:
+                return True
+            d, k = r2[0], 1
+            while k < len(r2) and r2[k] != d:
+                k += 2 if r2[k] == '\\' and k + 1 < len(r2) else 1
+            return path_safe(r2[k + 1:])
+        k = 0                                   # the argument ends at an unescaped | (or a comment)
+        while k < len(rest) and rest[k] not in '|"\n':
+            k += 2 if rest[k] == '\\' and k + 1 < len(rest) else 1
+        arg = rest[:k]
+        if cmd in FILECMDS and unsafe_path(arg):
+            return False
+        if cmd == 's' or cmd.startswith('su'):  # the substitute's own delimiters may hide a |
+            pass
+        i = j + k + 1
+    return True
+
 
 def many_buffers(r, nlines):
     """A session that opens 17..24 distinct (mostly non-existent) paths -- more than the 16 slots of bufs[] -- mixed with
@@ -410,6 +477,8 @@ def ex_script(r):
         lines += ex_block(r, nl)
         if r.chance(1, 120):
             lines += many_buffers(r, nl)
+    lines = [l if path_safe(l) else 'p' for l in lines]
+    files['cmds.ex'] = '\n'.join(l if path_safe(l) else 'p' for l in files['cmds.ex'].decode('utf-8').split('\n')).encode('utf-8')
     return [l.encode('utf-8') for l in lines], files
 
 
@@ -485,7 +554,9 @@ def vi_excmd(r, nlines):
         if len(b) == 1 and not s.startswith('so'):
             break
     else:
-        s = 'p'
+        b, s = ['p'], 'p'
+    if not path_safe(b[0]):
+        b, s = ['p'], 'p'
     if len(b) > 1:
         s += '\n'                       # the text block ends in '.', then back to vi
         return b':' + s.encode('utf-8')
@@ -583,7 +654,7 @@ def vi_stream(r):
             for l in many_buffers(r, nl):
                 if l in ('a',):
                     atoms.append(b'ix' + ESC)
-                elif l != '.' and not l.startswith('so') and '!' not in l.replace('e!', '').replace('w!', '').replace('b!', '').replace('b !', '').replace('ew!', '').replace('edit!', ''):
+                elif l != '.' and path_safe(l) and not l.startswith('so') and '!' not in l.replace('e!', '').replace('w!', '').replace('b!', '').replace('b !', '').replace('ew!', '').replace('edit!', ''):
                     atoms.append(b':' + l.encode('utf-8') + b'\n')
     return atoms, files, rows, cols
 
